@@ -185,14 +185,16 @@ def dep_eager_case(draw):
     """The eager response is given by a dependency of the actor (a guard that settles the message itself)."""
     action = draw(st.sampled_from(gen.EAGER_ACTIONS))
     retries = draw(st.integers(0, 2))
-    job = {"id": "p0", "actor": "a_dep", "queue": "q1", "retries": retries, "store_result": draw(st.booleans()),
+    nested = draw(st.booleans())  # the dependency that answers is a dependency of the actor's dependency
+    actor = {"name": "a_dep2", "queue": "q0", "shape": "dep2"} if nested else {"name": "a_dep", "queue": "q1", "shape": "dep"}
+    job = {"id": "p0", "actor": actor["name"], "queue": actor["queue"], "retries": retries, "store_result": draw(st.booleans()),
            "attempts": [{"k": "depeager", "action": action, "program": [], "sleep": 0.0},
                         draw(st.sampled_from([{"k": "ret", "v": 1, "sleep": 0.0}, {"k": "depeager", "action": "ack", "program": [], "sleep": 0.0}]))]}
     if draw(st.integers(0, 2)) == 0:
         job["attempts"].insert(0, {"k": "raise", "exc": "ValueError", "text": "x", "sleep": 0.0})  # a retried delivery first
     return gen.finalize({"broker": draw(st.sampled_from(["mem", "mem", "redis", "amqp"])), "seed": draw(st.integers(0, 999)),
                          "converter": draw(st.sampled_from(["basic", "pydantic"])),
-                         "actors": [{"name": "a_dep", "queue": "q1", "shape": "dep"}], "policy": {"kind": "table", "values": [0.2]},
+                         "actors": [actor], "policy": {"kind": "table", "values": [0.2]},
                          "worker": {"tasks_limit": 1}, "jobs": [job]})
 
 
